@@ -394,9 +394,11 @@ def compositions(n):
             yield [first] + rest
 
 
-def pick_unit(maxdelta, nmax, vrange, vmax):
-    """largest power of ten (<= 10^6) keeping every product of the trace spec below 10^9."""
-    worst = max(maxdelta * maxdelta, vrange * vrange // 4 + 1, vmax // max(nmax, 1) + 1, 1) * nmax * nmax
+def pick_unit(maxdelta, nmax, vrange, vmax, C):
+    """largest power of ten (<= 10^6) keeping every product of the trace spec (and every logged value) below 10^9:
+    C * delta^2 * n^2 * U (squared scaled distance, Q >= 1), (range^2 / 4) * n^2 * U (scale^2 * n^2, Q * U),
+    vmax * n * U (mean * denominator)."""
+    worst = max(C * maxdelta * maxdelta, vrange * vrange // 4 + 1, vmax // max(nmax, 1) + 1, 1) * nmax * nmax
     u = 10 ** 6
     while u > 1 and worst * u >= 10 ** 9:
         u //= 10
@@ -411,7 +413,8 @@ def units_for(obs, rows_lists, queries):
     nmax = max(len(rows) for rows in rows_lists)
     qv = [x for q in queries for r in q for x in r] + vals
     maxdelta = max(abs(x - o) for x in qv for o in flat_obs)
-    return pick_unit(maxdelta, nmax, max(vals) - min(vals), max(abs(v) for v in vals)), 10 ** 4 if nmax <= 100 else 100
+    return (pick_unit(maxdelta, nmax, max(vals) - min(vals), max(abs(v) for v in vals), len(flat_obs)),
+            10 ** 4 if nmax <= 100 else 100)
 
 
 def nondegenerate(rows):
@@ -580,6 +583,65 @@ def check_scenarios(ctx, scs):
     return traces
 
 
+def corruption_controls(ctx, scs, traces):
+    """Negative controls of the trace specs (binding demonstration, T5 i): one recorded OUTPUT field of a passing
+    trace is corrupted by a few fixed-point units; TLC must reject the trace with the expected clause."""
+    import copy
+
+    def first(pred):
+        for sc, tr in zip(scs, traces):
+            if pred(sc, tr):
+                return copy.deepcopy(tr)
+        raise tlc.MachineryFailure("no trace to corrupt")
+
+    dist, adapt = [], []
+    t = first(lambda sc, tr: sc["kind"] == "dist" and sc["metric"]["name"] == "cityblock" and not sc["metric"]["callable"])
+    t["events"][0]["v"][0] += 1
+    dist.append(("cityblock value off by 0.001", "P:metric", t))
+    t = first(lambda sc, tr: sc["kind"] == "dist" and sc["metric"]["name"] == "euclidean")
+    t["events"][0]["sq"][0] += 1
+    dist.append(("euclidean square off by 0.001", "P:metric", t))
+    t = first(lambda sc, tr: sc["kind"] == "dist")
+    t["events"][1]["shape"] = t["events"][1]["shape"] + [1]
+    dist.append(("output shape (n, 1)", "P:one-per-row", t))
+    t = first(lambda sc, tr: sc["kind"] == "dist" and len(sc["widths"]) >= 2 and sc["metric"]["callable"])
+    t["events"][0]["xsh"] = [t["events"][0]["xsh"][0] * t["events"][0]["xsh"][1]]
+    dist.append(("callable received a 1-d XA", "M:XA-shape", t))
+
+    t = first(lambda sc, tr: sc["kind"] == "adapt" and sc["tag"] == "partitions" and len(tr["events"]) >= 5)
+    k = max(i for i, e in enumerate(t["events"]) if e["ev"] == "add")
+    t["events"][k]["sc2"][0] += 3
+    adapt.append(("scale^2 off by 3 units after the last add_data", "P:scale", t))
+    t = first(lambda sc, tr: sc["kind"] == "adapt" and sc["tag"] == "partitions")
+    t["events"][-1]["sq"][0][-1] += len(t["events"][-1]["sq"][0]) + 20
+    adapt.append(("newest squared distance off", "P:newest", t))
+    t = first(lambda sc, tr: sc["kind"] == "adapt" and sc["tag"] == "rounds")
+    k = [i for i, e in enumerate(t["events"]) if e["ev"] == "gen" and e["qid"] == 0][-1]
+    t["events"][k]["v"][0][0] += 1
+    adapt.append(("an earlier column changed on re-evaluation", "P:earlier-unchanged", t))
+    t = first(lambda sc, tr: sc["kind"] == "adapt" and sc["tag"] == "run")
+    e = t["events"][0]
+    if len(e["v"]) >= 2:
+        e["v"][0], e["v"][1], e["sq"][0], e["sq"][1] = e["v"][1], e["v"][0], e["sq"][1], e["sq"][0]
+    else:
+        e["sq"][0][0] += 50
+    adapt.append(("discrepancies of two result rows swapped", "P:newest", t))
+    t = first(lambda sc, tr: sc["kind"] == "adapt" and sc["tag"] == "partitions")
+    k = max(i for i, e in enumerate(t["events"]) if e["ev"] == "add")
+    t["events"][k]["m2"][0] += 5
+    adapt.append(("store[2] off by 5 units", "M:store-m2", t))
+
+    for module, items in (("Distance_Trace", dist), ("Welford_Trace", adapt)):
+        vs = ctx.validate(module, [it[2] for it in items], name="corrupt")
+        for (what, want, _t), v in zip(items, vs):
+            got = v["verdict"] if v["verdict"] != "ok" else v["drift"]
+            if got != want:
+                raise tlc.MachineryFailure("trace spec %s did not reject a corrupted trace (%s): expected %s, got %r"
+                                           % (module, what, want, got))
+            ctx.negative_controls.append(dict(run="corrupted trace / %s: %s" % (module, what), refuted=want))
+    ctx.traces_validated -= len(dist) + len(adapt)       # not executions of the real code
+
+
 def dist_cfg(maxbs, maxsums, maxw, seeds, tiny, variant):
     return """SPECIFICATION Spec
 CONSTANTS
@@ -628,7 +690,7 @@ def design(ctx):
     for (C, vals, rows) in [(1, range(4), 6), (2, range(3), 3)]:
         ctx.tlc("Welford", "MC_Welford_c%d_v%d_n%d" % (C, len(vals), rows), cfg_text=welford_cfg(C, vals, rows, 0, "code"),
                 expect_actions=["AddDataAct"], workers=WORKERS, timeout=1200)
-    for (C, vals, rows, rounds) in [(1, range(2), 3, 3)]:
+    for (C, vals, rows, rounds) in [(1, range(2), 3, 2)]:
         ctx.tlc("Welford", "MC_Welford_c%d_v%d_n%d_r%d" % (C, len(vals), rows, rounds),
                 cfg_text=welford_cfg(C, vals, rows, rounds, "code"), expect_actions=["AddDataAct", "Update"],
                 workers=WORKERS, timeout=1800)
@@ -640,7 +702,7 @@ def design(ctx):
     ctx.tlc("Distance", "MC_Distance_code_large", cfg_text=dist_cfg(4, 3, 3, [0, 1, 2, 3], [0, 1, 2], "code"),
             workers=WORKERS, timeout=1800, coverage=False)
     for (C, vals, rows, rounds) in [(1, range(4), 7, 0), (2, range(4), 4, 0), (2, range(3), 5, 0), (3, range(2), 4, 0),
-                                    (1, range(3), 3, 3), (2, range(2), 3, 2)]:
+                                    (1, range(3), 3, 2), (1, range(2), 3, 4), (2, range(2), 3, 2)]:
         ctx.tlc("Welford", "MC_Welford_c%d_v%d_n%d_r%d" % (C, len(vals), rows, rounds),
                 cfg_text=welford_cfg(C, vals, rows, rounds, "code"), workers=WORKERS, timeout=2400, coverage=False)
 
@@ -673,6 +735,8 @@ def run(ctx):
     design(ctx)
     scs = dist_scenarios(ctx) + adapt_scenarios(ctx)
     traces = check_scenarios(ctx, scs)
+    if not ctx.violations:
+        corruption_controls(ctx, scs, traces)
     ctx.exhaustive = True
     by = {}
     for sc in scs:
